@@ -444,8 +444,8 @@ theorem WorldOK_step (w : World) (op : Op) (hw : WorldOK w) : WorldOK (step w op
     · rename_i x hx
       split
       · exact hw
-      · have ht := runTeardown_resOK c be x.tds { x with state := .closing, tds := [] } (hw c x hx)
-        generalize runTeardown c be x.tds { x with state := .closing, tds := [] } = r at ht
+      · have ht := runTeardown_resOK c be (effStack be x.tds) { x with state := .closing, tds := [] } (hw c x hx)
+        generalize runTeardown c be (effStack be x.tds) { x with state := .closing, tds := [] } = r at ht
         obtain ⟨x2, tr, excs⟩ := r
         dsimp only
         apply WorldOK_removeChild
@@ -559,7 +559,7 @@ theorem step_exit_frame (w : World) (t : TaskId) (c' : CtxId) (be : BlockEnd) (c
   · rename_i x hx
     split
     · exact .inl rfl
-    · generalize runTeardown c' be x.tds { x with state := .closing, tds := [] } = r
+    · generalize runTeardown c' be (effStack be x.tds) { x with state := .closing, tds := [] } = r
       obtain ⟨x2, tr, excs⟩ := r
       dsimp only
       have h1 : (((w.setCtx c' { x2 with state := .closed }).setCur t (x.token.getD none))).ctx? c
